@@ -194,6 +194,9 @@ func spellArgs(r *prng.R, flags string, file string, extra []string) []string {
 		args = append(args, "--")
 	}
 	args = append(args, file)
+	if at == len(items) && r.Chance(1, 8) {
+		args = append(args, "--") // a terminator with nothing after it changes nothing
+	}
 	args = append(args, items[at:]...)
 	return args
 }
@@ -311,7 +314,11 @@ func (c18) Run(t *testing.T, sc *Scenario) *Outcome {
 	switch sc.Str("mode") {
 	case "usage":
 		var args []string
-		switch r.Intn(9) {
+		switch r.Intn(11) {
+		case 9:
+			args = []string{srcName, "--", "other.bcl"} // two files, one on each side of the terminator
+		case 10:
+			args = []string{"--bload=a.bcb", srcName, "--"}
 		case 0:
 			args = []string{"-x", srcName}
 		case 1:
